@@ -552,31 +552,29 @@ impl NodeMon for C05 {
         }
         let men = [p.men(WHITE), p.men(BLACK)];
         let pawns = [p.count(pc(P, WHITE)), p.count(pc(P, BLACK))];
-        if n.ply == 0 {
-            self.prev = None;
-        }
-        if let Some((rights, pmen, ppawns)) = self.prev {
-            if n.prev.is_some() {
-                rep.count("ev_history_steps");
-                if p.castle & !rights != 0 {
-                    rep.violation("C05/castling-right-reappeared", hist.clone());
+        // the previous position of this history is handed over by the walker (parent node)
+        if let Some((pb, _, _)) = n.prev {
+            let q = read_board(pb);
+            let (rights, pmen, ppawns) = (q.castle, [q.men(WHITE), q.men(BLACK)], [q.count(pc(P, WHITE)), q.count(pc(P, BLACK))]);
+            rep.count("ev_history_steps");
+            if p.castle & !rights != 0 {
+                rep.violation("C05/castling-right-reappeared", hist.clone());
+            }
+            if p.castle != rights {
+                rep.count("ev_rights_lost");
+            }
+            for c in 0..2 {
+                if men[c] > pmen[c] {
+                    rep.violation("C05/men-count-grew", hist.clone());
                 }
-                if p.castle != rights {
-                    rep.count("ev_rights_lost");
+                if pawns[c] > ppawns[c] {
+                    rep.violation("C05/pawn-count-grew", hist.clone());
                 }
-                for c in 0..2 {
-                    if men[c] > pmen[c] {
-                        rep.violation("C05/men-count-grew", hist.clone());
-                    }
-                    if pawns[c] > ppawns[c] {
-                        rep.violation("C05/pawn-count-grew", hist.clone());
-                    }
-                    if men[c] < pmen[c] {
-                        rep.count("ev_men_decreased");
-                    }
-                    if pawns[c] < ppawns[c] && men[c] == pmen[c] {
-                        rep.count("ev_promotions_seen");
-                    }
+                if men[c] < pmen[c] {
+                    rep.count("ev_men_decreased");
+                }
+                if pawns[c] < ppawns[c] && men[c] == pmen[c] {
+                    rep.count("ev_promotions_seen");
                 }
             }
         }
@@ -1131,8 +1129,9 @@ impl NodeMon for HashMon {
 // ================================================================================================ C17
 
 pub struct C17 {
-    pub inc_v: Option<Board>,
-    pub inc_h: Option<Board>,
+    /// incrementally advanced mirror boards, keyed by the position they mirror
+    pub inc_v: Option<([u8; 34], Board)>,
+    pub inc_h: Option<([u8; 34], Board)>,
 }
 
 #[derive(PartialEq, Eq, Debug)]
@@ -1270,19 +1269,30 @@ impl C17 {
                 rep.violation(&format!("C17/{}/successor/{}/{}", axis, kind, d), format!("{} move {} vs mirror {} move {} differ in {}", n.p.fen(), m.uci(), mp.fen(), mm.uci(), d));
             }
         }
-        // lock-step incremental mirror (parallel playout)
+        // lock-step incremental mirror (parallel playout): advance the mirror of the parent position
+        // by the mirrored move; in a linear playout that mirror was itself reached incrementally
+        let here = pack(n.p, n.p.ep);
         let inc = if vertical { &mut self.inc_v } else { &mut self.inc_h };
-        let next = match (n.prev, inc.as_ref()) {
-            (Some((_, _, m)), Some(prev_mirror)) => {
+        let mut next = None;
+        if let Some((_, pp, m)) = n.prev {
+            let parent_key = pack(pp, pp.ep);
+            let parent_mirror = match inc.as_ref() {
+                Some((k, bm)) if *k == parent_key => {
+                    rep.count(&format!("ev_lockstep_chain_{}", axis));
+                    Some(*bm)
+                }
+                _ => {
+                    let pm = if vertical { pp.mirror_v() } else { pp.mirror_h() };
+                    Board::from_str(&pm.fen()).ok()
+                }
+            };
+            if let Some(pmb) = parent_mirror {
                 let mm = lib_move(RMove::new(mq(m.from), mq(m.to), m.promo));
-                if prev_mirror.legal(mm) {
-                    Some(prev_mirror.make_move_new(mm))
-                } else {
-                    None
+                if pmb.legal(mm) {
+                    next = Some(pmb.make_move_new(mm));
                 }
             }
-            _ => None,
-        };
+        }
         if let Some(im) = next {
             rep.count(&format!("ev_lockstep_{}", axis));
             let oi = sym_obs(&im);
@@ -1290,9 +1300,9 @@ impl C17 {
                 let d = diff_obs(&want, &oi);
                 rep.violation(&format!("C17/{}/lockstep/{}", axis, d), format!("{} : parallel playout on the mirror diverged in {}", n.p.fen(), d));
             }
-            *inc = Some(im);
+            *inc = Some((here, im));
         } else {
-            *inc = Some(mb);
+            *inc = Some((here, mb));
         }
     }
 }
